@@ -1,1 +1,76 @@
-(* placeholder, being written *)
+(* C13 — Image wire encoding is lossless.
+   Statements only; every proof is `exact <lemma>`. Model: Codec/ImageCodec.v (image_to_bin /
+   bin_to_image over the bincode model Codec/Schema.v and the lz4 model Codec/Lz4.v). Source tie:
+   BSGen.ImageLayout is regenerated from /repo/src/networking/assets/image_serde.rs on every run
+   and the model is DEFINED over its tables; BSGen.FormatNames is regenerated from the real
+   TextureFormat serializer (harness, `bsh codec-formats`). *)
+From Coq Require Import List NArith.
+From BS Require Import Codec.Schema Codec.Lz4 Codec.CodecTypes Codec.ImageCodec Codec.ImageCodecProofs.
+From BSGen Require Import ImageLayout FormatNames.
+Import ListNotations.
+Local Open Scope N_scope.
+
+(* ---- the code's declarative fragments are the ones the model was written for ---------- *)
+
+Theorem C13_source_dimension_tables_inverse :
+  forallb (fun p => dimension_eqb (num_to_dim (snd p)) (fst p)) dim_enc_table = true
+  /\ forallb (fun p => dim_to_num (snd p) =? fst p) dim_dec_table = true
+  /\ forallb (fun d => existsb (fun p => dimension_eqb (fst p) d) dim_enc_table) all_dimensions = true
+  /\ map fst dim_dec_table = [1; 2; 3] /\ dim_dec_default = D2.
+Proof. exact source_dimension_tables_inverse. Qed.
+
+(* the wire layout of `struct ImageData` (field order and types) *)
+Theorem C13_source_layout :
+  imagedata_fields =
+  [(I_width, TInt 4); (I_height, TInt 4); (I_depth_or_array_layers, TInt 4); (I_dimensions, TInt 1);
+   (I_format, TBytes); (I_data, TSeq (TInt 1))].
+Proof. exact source_image_layout. Qed.
+
+(* every argument of `Image::new` comes from the field that was initialised from the same part
+   of the image; all six parts are transported *)
+Theorem C13_source_wiring :
+  Forall (fun p => ifield_source (snd p) = Some (fst p)) image_dec_targets
+  /\ forallb (fun s => existsb (fun p => isource_eqb (fst p) s) image_dec_targets) all_isources = true.
+Proof. exact source_image_wiring. Qed.
+
+(* ---- the property ------------------------------------------------------------------------ *)
+
+(* For every image -- any width, height, depth / layer count (u32, zero included), any of the
+   three dimensions, any format name, any pixel bytes of any length (no bound) -- encoding
+   succeeds and decoding returns `Some` of exactly that image. *)
+Theorem C13_image_lossless :
+  forall i, wf_image i -> exists bs, image_to_bin i = Some bs /\ bin_to_image bs = Ok (Some i).
+Proof. exact ImageCodecProofs.C13_image_lossless. Qed.
+
+(* Finite statement over the table the real serializer produced ([format_count] rows: every
+   TextureFormat variant, Astc once per block and channel): two formats with the same name on
+   the wire are the same format, so "same format name" above is "same format". *)
+Theorem C13_format_names_injective :
+  forall r1 r2, In r1 format_table -> In r2 format_table -> wire_name r1 = wire_name r2 -> r1 = r2.
+Proof. exact format_names_injective. Qed.
+
+Theorem C13_format_table_is_complete_and_distinct :
+  NoDup (map wire_name format_table) /\ NoDup (map debug_name format_table)
+  /\ N.of_nat (length format_table) = format_count
+  /\ N.of_nat (length (filter is_uncompressed format_table)) = uncompressed_count.
+Proof. exact (conj (proj1 format_names_nodup) (conj (proj2 format_names_nodup) format_table_size)). Qed.
+
+(* every real format name gives well-formed images, e.g. this 2x1x3 one *)
+Theorem C13_wf_is_inhabited :
+  Forall (fun r => N.of_nat (length (wire_name r)) < 2 ^ 64 /\ Forall (fun x => x < 256) (wire_name r))
+         format_table
+  /\ wf_image ex_image.
+Proof. exact (conj format_names_are_bytes ex_image_wf). Qed.
+
+Theorem C13_executed_model_is_specified_model :
+  (forall i, image_to_bin_fast i = image_to_bin i) /\ (forall bs, bin_to_image_fast bs = bin_to_image bs).
+Proof. exact (conj image_to_bin_fast_eq bin_to_image_fast_eq). Qed.
+
+Print Assumptions C13_source_dimension_tables_inverse.
+Print Assumptions C13_source_layout.
+Print Assumptions C13_source_wiring.
+Print Assumptions C13_image_lossless.
+Print Assumptions C13_format_names_injective.
+Print Assumptions C13_format_table_is_complete_and_distinct.
+Print Assumptions C13_wf_is_inhabited.
+Print Assumptions C13_executed_model_is_specified_model.
